@@ -34,6 +34,15 @@ def make_scratch(repo=REPO):
         return out
 
     shutil.copytree(repo, dst, ignore=ignore, symlinks=True)
+    patch = os.environ.get("VERIF_PATCH")
+    if patch:
+        # self-test only: a mutant applied to the scratch copy, never to /repo
+        r = subprocess.run(["git", "apply", "--whitespace=nowarn", patch],
+                           cwd=dst, stdout=subprocess.PIPE,
+                           stderr=subprocess.STDOUT, text=True)
+        if r.returncode != 0:
+            shutil.rmtree(root, ignore_errors=True)
+            raise RuntimeError("VERIF_PATCH does not apply: " + r.stdout)
     env = dict(os.environ)
     env.pop("PYTHONHASHSEED", None)
     env["PSUTIL_DEBUG"] = ""
